@@ -11,7 +11,7 @@ from harness.common import EPS_W, bt, dates, frame
 
 BOUNDS = {
     'quick': 'shapes S1, S3, SC; 3-4 dates; arbitrary prior portfolio + K=2 operation sequences incl. several flows per date of either sign; solvent and '
-             'degenerate (capital from 0, value may hit exactly 0) pre-states; scale invariance on a 4-date rebalancing script with capital in [1e3, 1e7] (below that bt's absolute sizing tolerance of 1e-8 shows at 1e-9 relative: outside the claim), '
+             'degenerate (capital from 0, value may hit exactly 0) pre-states; scale invariance on a 4-date rebalancing script with capital in [1e3, 1e7] (below that the absolute sizing tolerance of 1e-8 in bt shows at 1e-9 relative: outside the claim), '
              'flows proportional to capital, proportional commission 1%, bid/offer off (a fixed spread is not size-proportional)',
     'thorough': 'adds S4/S5, K=3 on S1',
 }
